@@ -192,7 +192,7 @@ def e2e_jh(report, cfg, rule="R6.8", names=None, chunks=None):
 
             def go():
                 bv.reset()
-                it = Interp(f, MODELS, hooks={r"^jh_x86_64::compressor::ss::<": check_jh.ss_hook})
+                it = Interp(f, MODELS, hooks={check_jh.layer_rx(f)[0]: check_jh.ss_hook})
                 msg, got = api_digest(it, f, "jh_x86_64::%s" % name, ch, bits // 8)
                 exp = jh_spec(bits, msg)
                 _compare(report, rule, ikey, it, msg, got, exp, "%s over update calls of %s bytes" % (name, list(ch)),
